@@ -9,7 +9,7 @@ import (
 // C16: set commands against reference finite sets.
 
 func init() {
-	register("C16", familyCheck{&familySpec{Prop: "C16", Kinds: []string{"set"}, Ref: refSet, Random: setRandom, Sig: setSig,
+	register("C16", familyCheck{&familySpec{Prop: "C16", Kinds: []string{"set"}, Ref: refSet, Random: setRandom, Sig: setSig, LooseDeadlines: true,
 		Title: "refSet (Go maps as finite sets: membership changes, union/intersection/difference over the named operands with absent = empty, STORE = replace destination, SMOVE, sized random selections)"}})
 }
 
